@@ -244,5 +244,18 @@ CHECKS["C12"] = {
     "technique": "exhaustive small-scope enumeration (all sizes x all position pairs x all in-range offsets) of iterator laws against index arithmetic",
 }
 
+CHECKS["C16"] = {
+    "engine": "E3-exhaustive-enumerator",
+    "category": "exploration",
+    "text": "Every request (element type x parent kind x parent size 0..6 (thorough 0..16) x memory layout x operation x arguments) is executed on the real span in two builds (TCB_SPAN_THROW_ON_CONTRACT_VIOLATION: all "
+            "requests; TCB_SPAN_NO_CONTRACT_CHECKING: the valid ones): first(c), last(c), subspan(o), subspan(o,c) for ALL o, c in {0..n+2} u {2^31, 2^32+-1, 2^61.., 2^63+-1} u {SIZE_MAX-(n+2)..SIZE_MAX}, member and non-member forms; "
+            "a generated matrix of 1400+ (thorough 7200+) static-extent instantiations first<C>, last<C>, subspan<O>, subspan<O,C> for all O, C in -1..5 (8); every constructor form. Validity and the expected range are computed "
+            "in 128-bit integers and compared with raw addresses of guarded / exact-size heap blocks; every returned view is probed (size_bytes, empty, [], at() for in-range and 16 out-of-range indices, front/back, forward, "
+            "reverse and const iteration, writes through six paths with guard comparison); invalid requests in the checked build must be rejected.",
+    "design_ref": "DESIGN.md section 3, C16",
+    "note": "Trusted: the 128-bit range arithmetic. Bounds: parent size <= 6 (16) and the stated argument alphabet. Ill-formed static instantiations are listed in a manifest and probe-compiled.",
+    "technique": "exhaustive small-scope enumeration of (parent size, offset, count) incl. values near SIZE_MAX x static/dynamic extents x checking modes against sub-range arithmetic",
+}
+
 NOT_YET = "check not built yet in this round; design in DESIGN.md section 3"
 NOT_APPLICABLE = {}
